@@ -150,6 +150,8 @@ func genAwait(p *params, emit func(string, bool)) {
 	r := p.rng
 	// witness of F9: awaiting the terminal status, the run is paused first
 	emit("aw 3 1 1 w.1.1.3.1 w.1.1.2.1 w.1.1.2.2 w.1.1.5.3", true)
+	// run 2 of the awaited foreign ID reaches the awaited status: not the awaited run
+	emit("aw 2 1 1 w.2.1.2.2 w.1.1.2.1 w.2.1.7.2 w.1.1.2.2", true)
 	states := []int{1, 2, 3, 4, 5, 6, 7}
 	for i := 0; i < p.pick(250, 4000); i++ {
 		status := 2 + r.Intn(2)
@@ -157,7 +159,13 @@ func genAwait(p *params, emit func(string, bool)) {
 		n := 1 + r.Intn(6)
 		for j := 0; j < n; j++ {
 			run := 1 + r.Intn(2)
-			ops = append(ops, fmt.Sprintf("w.%d.%d.%d.%d", run, run, states[r.Intn(len(states))], 1+r.Intn(3)))
+			// the two runs belong to different foreign IDs, or (half of the cases) both to the awaited foreign ID: an event
+			// about the OTHER run of the same foreign ID must not release the caller
+			fid := run
+			if i%2 == 1 {
+				fid = 1
+			}
+			ops = append(ops, fmt.Sprintf("w.%d.%d.%d.%d", run, fid, states[r.Intn(len(states))], 1+r.Intn(3)))
 		}
 		emit(fmt.Sprintf("aw %d 1 1 %s", status, strings.Join(ops, " ")), true)
 	}
